@@ -148,6 +148,88 @@ def _args_reads(flow, key_exprs: List[ast.AST], argname: str) -> Set[str]:
     return seen
 
 
+def _defining_exprs(flow, exprs: List[ast.AST], depth=4) -> List[ast.AST]:
+    out, todo, seen = [], [(e, 0) for e in exprs], set()
+    while todo:
+        e, d = todo.pop()
+        if id(e) in seen:
+            continue
+        seen.add(id(e))
+        out.append(e)
+        if d >= depth:
+            continue
+        for n in ast.walk(e):
+            if isinstance(n, ast.Name) and isinstance(n.ctx, ast.Load) and flow.is_local(n.id):
+                node = flow.node_of(n)
+                for df in (flow.defs_reaching(node.id, n.id) if node is not None else []):
+                    if df.kind == "assign" and df.value is not None:
+                        todo.append((df.value, d + 1))
+    return out
+
+
+def _key_helpers(ctx: Ctx, w: FunctionInfo, flow, key_exprs: List[ast.AST]):
+    """(flow, return expressions, name standing for *args, name standing for **kwargs) of helpers the key is built by"""
+    a = w.node.args
+    out = []
+    for e in _defining_exprs(flow, key_exprs):
+        for c in ast.walk(e):
+            if not (isinstance(c, ast.Call) and isinstance(c.func, ast.Name)):
+                continue
+            r = ctx.p.resolve_expr(w.module, c.func, w)
+            h = r.func if r.kind == "func" else None
+            if h is None or h.module is not w.module:
+                continue
+            an = kn = None
+            hp = h.params
+            for i, arg in enumerate(c.args):
+                if isinstance(arg, ast.Name) and i < len(hp):
+                    if a.vararg is not None and arg.id == a.vararg.arg:
+                        an = hp[i]
+                    if a.kwarg is not None and arg.id == a.kwarg.arg:
+                        kn = hp[i]
+            for kw in c.keywords:
+                if kw.arg and isinstance(kw.value, ast.Name):
+                    if a.vararg is not None and kw.value.id == a.vararg.arg:
+                        an = kw.arg
+                    if a.kwarg is not None and kw.value.id == a.kwarg.arg:
+                        kn = kw.arg
+            if an is None and kn is None:
+                continue
+            rets = [n.value for n in own_nodes(h.node) if isinstance(n, ast.Return) and n.value is not None]
+            out.append((flow_of(h.node), rets, an, kn))
+    return out
+
+
+LOSSY_FUNCS = {"str", "format", "hash", "id", "len", "bool", "type", "int", "float"}
+
+
+def _lossy_reads(flow, key_exprs: List[ast.AST], name: str) -> str:
+    """text of a conversion through which the key reads the arguments (str(a) for a in args / str(args)), or ''"""
+    for e in _defining_exprs(flow, key_exprs):
+        for n in ast.walk(e):
+            if isinstance(n, (ast.GeneratorExp, ast.ListComp, ast.SetComp, ast.DictComp)):
+                for g in n.generators:
+                    it = g.iter
+                    while isinstance(it, ast.Call) and ((isinstance(it.func, ast.Attribute) and it.func.attr in ("items", "values"))
+                                                         or (isinstance(it.func, ast.Name) and it.func.id in ("sorted", "list", "tuple", "enumerate"))):
+                        it = it.func.value if isinstance(it.func, ast.Attribute) else (it.args[0] if it.args else it)
+                    if not (isinstance(it, ast.Name) and it.id == name):
+                        continue
+                    targets = {x.id for x in ast.walk(g.target) if isinstance(x, ast.Name)}
+                    elts = [n.key, n.value] if isinstance(n, ast.DictComp) else [n.elt]
+                    for el in elts:
+                        for c in ast.walk(el):
+                            if isinstance(c, ast.Call) and (dotted(c.func) or "").split(".")[-1] in LOSSY_FUNCS and any(
+                                    isinstance(x, ast.Name) and x.id in targets for arg in c.args for x in ast.walk(arg)):
+                                return norm(c)
+                            if isinstance(c, ast.JoinedStr) and any(isinstance(x, ast.Name) and x.id in targets for x in ast.walk(c)):
+                                return norm(c)
+            if isinstance(n, ast.Call) and (dotted(n.func) or "") in ("hash", "len") and any(
+                    isinstance(x, ast.Name) and x.id == name for x in n.args):
+                return norm(n)
+    return ""
+
+
 def rule_key(ctx: Ctx) -> RuleResult:
     res = RuleResult("R-KEY")
     decs = memo_decorators(ctx)
@@ -177,15 +259,32 @@ def rule_key(ctx: Ctx) -> RuleResult:
                           w.relpath, w.node.lineno)
         else:
             res.ok(f"{short}: key depends on every wrapper parameter", f"key = {sorted(key_texts)[0]} reads {sorted(deps)}")
+        # a key built by a helper of the caching module is judged by what the helper returns
+        sources = [(flow, key_exprs, a.vararg.arg if a.vararg else None, a.kwarg.arg if a.kwarg else None)]
+        sources += _key_helpers(ctx, w, flow, key_exprs)
+        for hflow, hexprs, an, kn in sources:
+            for nm, what in ((an, "positional"), (kn, "keyword")):
+                lossy = _lossy_reads(hflow, hexprs, nm) if nm else None
+                if lossy:
+                    res.violation([dq, f"{what} arguments", "converted"],
+                                  f"{short}: the key holds `{lossy}` instead of the {what} argument values themselves: two different "
+                                  f"arguments with the same text (a Sid and its string, typed differently; 1 and '1') share one cache "
+                                  f"entry", w.relpath, w.node.lineno)
         if a.vararg is not None:
-            r = _args_reads(flow, key_exprs, a.vararg.arg)
+            r = set()
+            for hflow, hexprs, an, kn in sources:
+                if an:
+                    r |= _args_reads(hflow, hexprs, an)
             if "partial" in r or not r:
                 res.violation([dq, "positional arguments"], f"{short}: the key reads only part of *{a.vararg.arg} ({sorted(r)})",
                               w.relpath, w.node.lineno)
             else:
                 res.ok(f"{short}: key holds all positional arguments", "args read as a whole")
         if a.kwarg is not None:
-            r = _kwargs_reads(flow, key_exprs, a.kwarg.arg)
+            r = set()
+            for hflow, hexprs, an, kn in sources[1:] or sources:
+                if kn:
+                    r |= _kwargs_reads(hflow, hexprs, kn)
             full = "items" in r or "whole" in r or ("names" in r and "values" in r)
             if not full:
                 what = "names only" if r == {"names"} else ("values only" if r == {"values"} else "nothing")
